@@ -274,6 +274,7 @@ func c06PFCP(r *Run) {
 	g := NewGen(r)
 	g.PlainQER = true
 	held := map[string]uint64{} // ip -> cp seid
+	ipOf := map[uint64]string{} // cp seid -> ip
 	rounds := 1 + r.Ch.Choose(3, "rounds")
 	for round := 0; round < rounds && r.AgentAlive(); round++ {
 		// every peer sends an establishment at the same instant
@@ -297,6 +298,7 @@ func c06PFCP(r *Run) {
 				// (not refused after all: it holds an address like any other session)
 				if ip := bad.PDRs[1].GotUEIP; ip != nil {
 					held[ip.String()] = bad.CPSEID
+					ipOf[bad.CPSEID] = ip.String()
 				}
 			} else if res.Rx != nil {
 				r.Probe("establishment-refused-after-address-was-taken")
@@ -341,6 +343,7 @@ func c06PFCP(r *Run) {
 				return
 			}
 			held[ip.String()] = pe.s.CPSEID
+			ipOf[pe.s.CPSEID] = ip.String()
 			r.Accepted++
 		}
 		if accepted < np && len(held) < size {
@@ -365,11 +368,55 @@ func c06PFCP(r *Run) {
 			r.Probe("modification-asking-for-address-refused-half-way")
 			r.Skel("refused-mod-chv4")
 		}
+		// The control plane replaces the downlink PDR of a session: Remove PDR of the
+		// PDR through which the address was allocated + Create PDR naming that
+		// address explicitly. The session goes on using its address: nobody else
+		// may be given it while the session lives.
+		for _, s := range r.LiveSessions() {
+			if len(s.PDRs) != 2 || !s.PDRs[1].UEIPAlloc || s.PDRs[1].GotUEIP == nil || r.Ch.Choose(4, "replace-dl-pdr") != 1 {
+				continue
+			}
+			repl := s.PDRs[1].clone()
+			repl.ID, repl.UEIPAlloc, repl.UEIP = 60, false, s.PDRs[1].GotUEIP
+			mr := s.Peer.Modify(s, &ModSpec{Tag: "rP:dl+cP:explicit-address", RemovePDR: []uint16{s.PDRs[1].ID}, CreatePDR: []*PDRSpec{repl}})
+			if mr.Rx == nil {
+				r.Inconclusive++
+				return
+			}
+			r.Skel(fmt.Sprintf("replace-dl-pdr:%v", mr.Accepted))
+			if mr.Accepted {
+				r.Probe("downlink-pdr-replaced-by-one-naming-the-address")
+			}
+		}
+		// The control plane of one peer restarts: it sets the association up again
+		// with a newer Recovery Time Stamp on the same connection and then clears
+		// its old sessions (a deletion may be answered "unknown session" if the
+		// agent dropped them on its own). Either way their addresses are free again.
+		if r.Ch.Choose(5, "cp-restart") == 1 {
+			q := r.Peers[r.Ch.Choose(np, "cp-restart-peer")]
+			q.TS = q.TS.Add(time.Duration(1+r.Ch.Choose(100, "cp-restart-secs")) * time.Second)
+			if q.AssociateRetry() == nil {
+				r.Inconclusive++
+				return
+			}
+			r.Probe("control-plane-restart-with-newer-recovery-time-stamp")
+			r.Skel("cp-restart")
+			for _, id := range sortedSessionIDs(q) {
+				s := q.Sessions[id]
+				res := q.Delete(s)
+				if res.Rx == nil {
+					r.Inconclusive++
+					return
+				}
+				delete(held, ipOf[s.CPSEID])
+				delete(q.Sessions, id)
+			}
+		}
 		// release some
 		for _, s := range r.LiveSessions() {
 			if r.Ch.Choose(2, "release") == 1 {
 				if res := s.Peer.Delete(s); res.Accepted {
-					delete(held, s.PDRs[1].GotUEIP.String())
+					delete(held, ipOf[s.CPSEID])
 				}
 			}
 		}
